@@ -119,6 +119,9 @@ def run(ctx):
             if rc != 0:
                 ctx.violation(f"cli exit {rc} in fun {f['name']}", {"src": src, "stderr": err[-400:]}, cli_cmd=f"garden run -c '{src.strip()}' </dev/null")
             ctx.outcome("ok" if "Ok(" in out else "exception")
+    # value nesting ladder: deeply nested values built by a loop, then printed, compared, matched and dropped, one real CLI
+    # process each under the default 8 MiB stack and a 4 GiB address-space cap
+    progs += nesting_ladder(ctx)
     # CLI confirmation of (up to 30) violations
     for sig, v in list(ctx.violations.items())[:30]:
         d = v["detail"]
@@ -142,6 +145,50 @@ def run(ctx):
             "(full product for <=2 positions, else all vectors deviating from a well-typed default in <=bound positions), arity n-1 and n+1; every binary operator and "
             "+=/-= over pool x pool; 45 syntax forms x pool. One call per program, fresh Env, tick limit 200k, sandbox on (effectful ones also off, in a scratch dir). "
             "Oracle: outcome is a value or an EvalError; a Rust panic, abort, signal or >20 s is a violation.")
+
+
+NEST_KINDS = {"list": "[v]", "tuple": "(v, 1)", "option": "Some(v)", "struct": "Bx{ f: v }", "dict": 'Dict["k" => v]', "result": "Err(v)"}
+NEST_OPS = {"string_repr": "println(string_repr(string_repr(v).len()))", "eq": "println(string_repr(v == w))", "drop": 'println("done")',
+            "call": "println(string_repr(id(v) == v))", "match": "match Some(v) { Some(x) => println(\"m\") None => println(\"n\") }"}
+
+
+def nesting_ladder(ctx):
+    import concurrent.futures
+    depths = [10, 100, 500] if ctx.quick else [10, 100, 500, 1000, 2000]
+    ctx.bound("value_nesting_depths", depths)
+    cases = []
+    for kind, wrap in NEST_KINDS.items():
+        for op, probe in NEST_OPS.items():
+            for d in depths:
+                src = ("struct Bx { f: Any }\nfun id(x) { x }\nfun build(n: Int) {\n  let v = Unit\n  let i = 0\n  while i < n {\n    v = " + wrap +
+                       "\n    i += 1\n  }\n  v\n}\n" + f"let v = build({d})\nlet w = build({d})\n" + probe + "\n")
+                cases.append((kind, op, d, src))
+
+    def one(case):
+        kind, op, d, src = case
+        path = ctx.tmpfile(f"nest/{kind}-{op}-{d}.gdn", src)
+        cmd = f"ulimit -v 4194304; exec {ctx.binary} run {path}"
+        import subprocess
+        try:
+            p = subprocess.run(["/bin/sh", "-c", cmd], stdin=subprocess.DEVNULL, stdout=subprocess.PIPE, stderr=subprocess.PIPE, timeout=600)
+            return p.returncode, p.stdout.decode("utf-8", "replace"), p.stderr.decode("utf-8", "replace")[-400:]
+        except subprocess.TimeoutExpired:
+            return "timeout", "", ""
+
+    with concurrent.futures.ThreadPoolExecutor(8) as ex:
+        results = list(ex.map(one, cases))
+    failed = set()
+    out = []
+    for (kind, op, d, src), (rc, so, se) in sorted(zip(cases, results), key=lambda x: x[0][2]):
+        out.append((f"nesting {kind} {op}", src, False))
+        ok = rc == 0
+        ctx.outcome("nest:ok" if ok else "nest:crash")
+        if not ok and (kind, op) not in failed:
+            failed.add((kind, op))
+            how = "timeout" if rc == "timeout" else ("panic" if rc == 101 else ("stack overflow" if "overflowed its stack" in se else ("out of memory" if "memory allocation" in se else f"rc={rc}")))
+            ctx.violation(f"deeply nested {kind} value, {op}: {how} at depth {d}", {"src": src, "rc": rc, "stderr_tail": se, "stdout": so[-200:]},
+                          cli_cmd="garden run <file with src>")
+    return out
 
 
 def normalise(msg):
